@@ -22,7 +22,7 @@ def one(sid):
         out = tempfile.mkdtemp(prefix="evseedout.")
         det = {}
         for pid in ALL:
-            pr = subprocess.run([os.path.join(ROOT, "bin", "evcheck"), "-repo", tmp, "-verif", ROOT, "-out", out, pid], env=ENV, capture_output=True, text=True)
+            pr = subprocess.run([os.environ.get("EVCHECK_BIN", os.path.join(ROOT, "bin", "evcheck")), "-repo", tmp, "-verif", ROOT, "-out", out, pid], env=ENV, capture_output=True, text=True)
             lines = [l.strip() for l in pr.stdout.splitlines() if l.startswith("  C") or l.startswith("UNDECIDED")]
             det[pid] = {"exit": pr.returncode, "reports": [l[:400] for l in lines[:6]]}
         shutil.rmtree(out, ignore_errors=True)
